@@ -166,11 +166,14 @@ StatusKeys == {K_volume, K_state, K_repeat, K_random, K_consume, K_single, K_pla
 Opt(fields, k) == IF Count(fields, k) = 0 THEN None ELSE Some(Vals(fields, k)[1])
 Status(fields) ==
   \* well-formed: every documented field at most once, the always-present ones present, song ids in pairs,
-  \* no deprecated Time/time field (its handling is outside the property)
+  \* no capitalised Time field (no MPD sends it in a status reply; the library's compatibility path for it is outside the property).
+  \* The lower-case `time: <elapsed>:<total>` line IS part of every status reply of a playing server (deprecated, whole seconds); it
+  \* corresponds to no field of the typed value: `elapsed` / `duration` are present exactly when THEIR lines are (a stream of unknown
+  \* length has `time: 12:0`, `elapsed`, and no `duration`)
   IF \/ \E k \in StatusKeys : Count(fields, k) > 1
      \/ \E k \in {K_state, K_repeat, K_random, K_consume} : Count(fields, k) = 0
      \/ Count(fields, K_song) # Count(fields, K_songid) \/ Count(fields, K_nextsong) # Count(fields, K_nextsongid)
-     \/ Count(fields, K_Time) > 0 \/ Count(fields, K_time) > 0
+     \/ Count(fields, K_Time) > 0
   THEN Unspec ELSE
   LET v(k) == Vals(fields, k)[1]
       has(k) == Count(fields, k) = 1
